@@ -129,7 +129,26 @@ func (f *Fresh) rootOf(v ssa.Value, seen map[ssa.Value]bool) root {
 	case *ssa.Const:
 		return freshRoot() // nil slice / zero value
 	case *ssa.Alloc:
-		return freshRoot()
+		// a locally allocated struct that holds container storage (BigMap, BigArray) is only as
+		// exclusively owned as the slices stored into it: &BigMap{kv: m.kv} shares m's storage
+		r := freshRoot()
+		if f.holdsStorage(x.Type()) {
+			for _, ref := range *x.Referrers() {
+				fa, ok := ref.(*ssa.FieldAddr)
+				if !ok {
+					continue
+				}
+				if _, isSlice := fa.Type().(*types.Pointer).Elem().Underlying().(*types.Slice); !isSlice {
+					continue
+				}
+				for _, r2 := range *fa.Referrers() {
+					if st, ok := r2.(*ssa.Store); ok && st.Addr == ssa.Value(fa) {
+						r = r.join(f.rootOf(st.Val, seen))
+					}
+				}
+			}
+		}
+		return r
 	case *ssa.MakeSlice, *ssa.MakeMap:
 		return freshRoot()
 	case *ssa.Parameter:
@@ -226,7 +245,7 @@ func (f *Fresh) loadRoot(addr ssa.Value, seen map[ssa.Value]bool) root {
 		}
 		return r
 	case *ssa.FieldAddr:
-		base := f.rootOf(a.X, map[ssa.Value]bool{})
+		base := f.rootOf(a.X, seen)
 		if base.kind != rFresh {
 			return base // field of parameter-derived / shared struct
 		}
